@@ -53,7 +53,7 @@ PROPS = {
         units=['path:interpreter::PushInterpreter::*', 'path:state::PushState::size'],
         explanation='step: returns true iff EXEC was empty and then changes nothing; run: NoErrors only with EXEC empty, at most eval_push_limit+1 steps started '
                     '(loop invariant) and StepLimitExceeded exactly when that many were executed, termination by decreases limit+1-step_counter, configuration never changed; '
-                    'time limit: TimeLimitExceeded is returned only after a clock reading d with d > Duration::from_millis(eval_time_limit), and every step is preceded, in its own iteration, by a clock reading that did not exceed it '
+                    'time limit: TimeLimitExceeded is returned only after a clock reading d with d > Duration::from_millis(eval_time_limit) (or d.as_millis() > eval_time_limit: whole-millisecond granularity is accepted), and every step is preceded, in its own iteration, by a clock reading that did not exceed it '
                     '(assertions anchored at the return and before the call of step; the clock readings themselves are arbitrary values)',
         not_decided=['that wall-clock time is bounded (liveness under an arbitrary clock): Instant::elapsed() returns an arbitrary Duration in the contract -- what is decided is that the clock is consulted before every step and compared with the limit in milliseconds',
                      '"the state left behind equals k manual steps": run changes the state only through copy_to_code_stack and step (both under contract); '
